@@ -70,6 +70,8 @@ struct Gen {
   vh::Rng *rng;
   bool ctrl_ok;   // may strings contain control characters other than \t \n \r ?
   int hot;        // 0: mixed alphabet, 1: mostly the five escaped bytes and structural characters
+  size_t big;     // != 0: the top-level container gets exactly this many entries (sizes around powers of two, where
+                  // counters of a narrower type wrap and buffers are regrown)
   std::string str() {
     vh::Rng &r = *rng;
     size_t len = r.chance(1, 8) ? 0 : (r.chance(1, 2) ? 1 + r.below(3) : 1 + r.below(r.chance(1, 10) ? 40 : 12));
@@ -90,6 +92,7 @@ struct Gen {
   }
   size_t count(int depth) {
     vh::Rng &r = *rng;
+    if (big != 0) return depth == 0 ? big : (depth > 1 ? 0 : r.below(2));
     if (r.chance(1, 7)) return 0;
     if (depth == 0 && r.chance(1, 9)) return 10 + r.below(3);   // around the `size > 10` rule
     if (depth > 1) return r.below(3);
@@ -965,7 +968,7 @@ int main(int argc, char **argv) {
   for (const std::string &tn : g_type_names) {
     TypeEntry &te = g_types[tn];
     for (size_t it = 0; it < per_type; ++it) {
-      Gen g{&rng, rng.chance(2, 5), static_cast<int>(rng.below(3) == 0)};
+      Gen g{&rng, rng.chance(2, 5), static_cast<int>(rng.below(3) == 0), 0};
       Gened v = te.gen(g);
       Case c;
       c.kind = "rt " + type_class(tn) + " " + (v.clean ? "1" : "0");
@@ -984,12 +987,34 @@ int main(int argc, char **argv) {
       run(c);
     }
   }
+  // (1b) large top-level containers: entry counts around powers of two (255 .. 513, up to 4097 thorough), every type once per size
+  {
+    std::vector<size_t> sizes = {255, 256, 257, 513};
+    if (th) for (size_t z : {1023, 1024, 1025, 4096, 4097}) sizes.push_back(z);
+    for (const std::string &tn : g_type_names) {
+      TypeEntry &te = g_types[tn];
+      for (size_t z : sizes) {
+        Gen g{&rng, false, 0, z};
+        Gened v = te.gen(g);
+        if (v.op_val.size() < z) continue;   // not a container at the top level: nothing large was generated
+        Case c;
+        c.kind = "rt " + type_class(tn) + " " + (v.clean ? "1" : "0");   // large: same kind, same oracle
+        c.ops.push_back("write " + tn + " " + v.op_val);
+        std::string r = te.write(v.op_val);
+        if (r.compare(0, 5, "text ") == 0) {
+          c.ops.push_back("read " + tn + " " + r.substr(5));
+          c.ops.push_back("wf " + r.substr(5));
+        }
+        run(c);
+      }
+    }
+  }
   // (2) reference documents: the reader alone, against an independent emitter
   size_t nref = th ? 30000 : 1500;
   for (size_t it = 0; it < nref; ++it) {
     const std::string &tn = g_type_names[rng.below(g_type_names.size())];
     TypeEntry &te = g_types[tn];
-    Gen g{&rng, rng.chance(1, 2), static_cast<int>(rng.below(3) == 0)};
+    Gen g{&rng, rng.chance(1, 2), static_cast<int>(rng.below(3) == 0), 0};
     RefOut o{"", &rng, rng.chance(2, 3)};
     o.ws();
     std::string expect;
